@@ -1440,6 +1440,49 @@ impl LineBuf {
 		}
 		Some((start,end))
 	}
+	/// Where '}' (forward) or '{' (backward) goes: the start of the `count`-th empty line in that
+	/// direction. Running into the first line ends at its start; running into the last line ends on its
+	/// last character (the flag is set then). With a count that asks for more than one such step when the
+	/// buffer has already ended, the motion fails.
+	pub fn paragraph_motion(&mut self, count: usize, dir: Direction) -> Option<(usize,bool)> {
+		let last = self.last_line_number();
+		let mut curr = self.cursor_line_number().min(last);
+		let forward = dir == Direction::Forward;
+		for step in 0..count {
+			let steps_left = count - step - 1;
+			let mut did_skip = false;
+			let mut first = true;
+			loop {
+				let (start,end) = self.line_bounds(curr)?;
+				let is_empty = start == end || (end - start == 1 && self.grapheme_at(start) == Some("\n"));
+				if !is_empty {
+					did_skip = true;
+				}
+				if !first && did_skip && is_empty {
+					break
+				}
+				first = false;
+				if (forward && curr == last) || (!forward && curr == 0) {
+					if steps_left > 0 {
+						return None
+					}
+					break
+				}
+				curr = if forward { curr + 1 } else { curr - 1 };
+			}
+		}
+		let (start,end) = self.line_bounds(curr)?;
+		if forward && curr == last {
+			let mut content_end = end;
+			if content_end > start && self.grapheme_at(content_end - 1) == Some("\n") {
+				content_end -= 1;
+			}
+			if content_end > start {
+				return Some((content_end - 1,true))
+			}
+		}
+		Some((start,false))
+	}
 	/// Get the span of the next delimited block in this line
 	pub fn text_obj_delim(&mut self, count: usize, text_obj: TextObj, bound: Bound) -> Option<(usize,usize)> {
 		let mut backward_indices = (0..self.cursor.get()).rev();
@@ -2583,6 +2626,21 @@ impl LineBuf {
 					}
 				} else {
 					MotionKind::On(pos.get())
+				}
+			}
+			MotionCmd(count,Motion::TextObj(TextObj::Paragraph(dir))) => {
+				// '}' and '{': to the next / previous empty line, `count` times
+				let Some((pos,on_last_char)) = self.paragraph_motion(count, dir) else {
+					return MotionKind::Null
+				};
+				if on_last_char && verb.is_some() && pos == self.cursor.get() {
+					// already on the last character of the buffer: an operator still takes it
+					MotionKind::Inclusive((pos,pos))
+				} else if on_last_char {
+					// ran into the end of the buffer: the last character is part of what an operator takes
+					MotionKind::Onto(pos)
+				} else {
+					MotionKind::On(pos)
 				}
 			}
 			MotionCmd(count,Motion::TextObj(text_obj)) => {
